@@ -333,6 +333,22 @@ class SBool:
     def __int__(self):
         return 1 if bool(self) else 0
 
+    # bool is an int in Python: arithmetic on a symbolic bool goes through ite(b, 1, 0)
+    def _i(self):
+        return s_ite(self, 1, 0)
+
+    def __add__(self, o): return self._i() + o
+    def __radd__(self, o): return o + self._i()
+    def __sub__(self, o): return self._i() - o
+    def __rsub__(self, o): return o - self._i()
+    def __mul__(self, o): return self._i() * o
+    def __rmul__(self, o): return o * self._i()
+    def __neg__(self): return -self._i()
+    def __lt__(self, o): return self._i() < o
+    def __le__(self, o): return self._i() <= o
+    def __gt__(self, o): return self._i() > o
+    def __ge__(self, o): return self._i() >= o
+
 
 def mkbool(e):
     e = z3.simplify(e)
